@@ -576,6 +576,15 @@ func envRandomFields(c *envCase, r *rand.Rand) *envFields {
 		cls["rel"] = envRelOf(f.tip, f.cap)
 		cls["base"] = envBaseClassOf(f.base, f.tip, f.cap)
 	}
+	// the envelope: one random case in three is hand-built (drawn last: the transaction of a seed does not depend on it)
+	cls["rec"], cls["from"] = "canon", "empty"
+	if r.Intn(3) == 0 {
+		cls["rec"] = envRecClasses[r.Intn(len(envRecClasses))]
+		cls["from"] = envFromClasses[r.Intn(len(envFromClasses))]
+		if r.Intn(3) == 0 {
+			cls["rec"] = "canon"
+		}
+	}
 	c.Cls = cls
 	return f
 }
@@ -734,6 +743,8 @@ func envVbClass(st envStage) string {
 		return "fee-oob"
 	case strings.Contains(e, "invalid tx hash"):
 		return "hash-mismatch"
+	case strings.Contains(e, "invalid from address"):
+		return "from-invalid"
 	case strings.Contains(e, "invalid chain"), strings.Contains(e, "chain ID"):
 		return "chain-id"
 	}
@@ -787,6 +798,179 @@ func envSignTx(f *envFields, key *ecdsa.PrivateKey) (*ethtypes.Transaction, envS
 	return tx, st
 }
 
+var envRecClasses = []string{"canon", "upper", "mixed", "capsprefix", "noprefix", "odd", "zeropad", "longer", "wrong", "empty"}
+var envFromClasses = []string{"empty", "signer", "foreign", "garbage"}
+
+// envSpellHash: the string a sender records for the hash, per class RecC of Envelope.tla.
+func envSpellHash(h common.Hash, cls string, r *rand.Rand) (string, error) {
+	canon := h.Hex()
+	digits := canon[2:]
+	switch cls {
+	case "canon":
+		return canon, nil
+	case "upper":
+		return "0x" + strings.ToUpper(digits), nil
+	case "mixed":
+		b := []byte(digits)
+		first, changed := -1, false
+		for i := range b {
+			if b[i] >= 'a' && b[i] <= 'f' {
+				if first < 0 {
+					first = i
+				}
+				if r.Intn(2) == 0 {
+					b[i] -= 'a' - 'A'
+					changed = true
+				}
+			}
+		}
+		if !changed && first >= 0 {
+			b[first] -= 'a' - 'A'
+		}
+		return "0x" + string(b), nil
+	case "capsprefix":
+		return "0X" + digits, nil
+	case "noprefix":
+		return digits, nil
+	case "odd":
+		return "0x0" + digits, nil
+	case "zeropad":
+		return "0x" + strings.Repeat("00", 1+r.Intn(4)) + digits, nil
+	case "longer":
+		pre := make([]byte, 1+r.Intn(8))
+		r.Read(pre)
+		if pre[0] == 0 {
+			pre[0] = 0xde
+		}
+		return "0x" + hex.EncodeToString(pre) + digits, nil
+	case "wrong":
+		g := h
+		g[r.Intn(32)] ^= 1 << uint(r.Intn(8))
+		return g.Hex(), nil
+	case "empty":
+		return "", nil
+	}
+	return "", fmt.Errorf("rec class %q", cls)
+}
+
+// envSpellFrom: what a sender writes into the unsigned From field, per class FromC of Envelope.tla.
+func envSpellFrom(signer common.Address, cls string, r *rand.Rand) (string, error) {
+	switch cls {
+	case "empty":
+		return "", nil
+	case "signer":
+		return strings.ToLower(signer.Hex()), nil
+	case "foreign":
+		for {
+			a := envRandAddr(r)
+			if a != signer {
+				return strings.ToLower(a.Hex()), nil
+			}
+		}
+	case "garbage":
+		switch r.Intn(3) {
+		case 0:
+			return strings.ToLower(signer.Hex())[:40], nil
+		case 1:
+			return sdk.AccAddress(signer.Bytes()).String(), nil
+		}
+		return "not-an-address", nil
+	}
+	return "", fmt.Errorf("from class %q", cls)
+}
+
+// envelopeHandBuilt sends the wrapped transaction in an envelope whose recorded hash and From field are spelled by
+// the sender, and logs what the receiving side sees.
+func envelopeHandBuilt(ec *envCodec, h M, msg *evmtypes.MsgEthereumTx, tx *ethtypes.Transaction, key *ecdsa.PrivateKey,
+	recCls, fromCls string, seed int64) {
+	h["run"] = true
+	r := rand.New(rand.NewSource(seed ^ 0x5eedc18))
+	h["stage"] = envTry(func() error {
+		sent, err := envSpellHash(tx.Hash(), recCls, r)
+		if err != nil {
+			return err
+		}
+		sentFrom, err := envSpellFrom(crypto.PubkeyToAddress(key.PublicKey), fromCls, r)
+		if err != nil {
+			return err
+		}
+		h["sent"], h["denotes"], h["sentFrom"] = sent, common.HexToHash(sent).Hex(), sentFrom
+		bz, err := msg.Marshal()
+		if err != nil {
+			return err
+		}
+		var cp evmtypes.MsgEthereumTx
+		if err := cp.Unmarshal(bz); err != nil {
+			return err
+		}
+		cp.Hash, cp.From = sent, sentFrom
+		b := ec.txConfig.NewTxBuilder()
+		xb, ok := b.(interface{ SetExtensionOptions(...*codectypes.Any) })
+		if !ok {
+			return fmt.Errorf("unsupported builder")
+		}
+		opt, err := codectypes.NewAnyWithValue(&evmtypes.ExtensionOptionsEthereumTx{})
+		if err != nil {
+			return err
+		}
+		xb.SetExtensionOptions(opt)
+		if err := b.SetMsgs(&cp); err != nil {
+			return err
+		}
+		if fee := msg.GetFee(); fee.Sign() > 0 {
+			if fee.Cmp(envMax256) > 0 {
+				return fmt.Errorf("fee above 2^256-1: no envelope can carry it")
+			}
+			b.SetFeeAmount(sdk.Coins{sdk.NewCoin(envEvmDenom, sdk.NewIntFromBigInt(fee))})
+		}
+		b.SetGasLimit(msg.GetGas())
+		enc, err := ec.txConfig.TxEncoder()(b.GetTx())
+		if err != nil {
+			return err
+		}
+		dec, err := ec.txConfig.TxDecoder()(enc)
+		if err != nil {
+			return err
+		}
+		msgs := dec.GetMsgs()
+		if len(msgs) != 1 {
+			return fmt.Errorf("%d messages", len(msgs))
+		}
+		out, ok := msgs[0].(*evmtypes.MsgEthereumTx)
+		if !ok {
+			return fmt.Errorf("message is %T", msgs[0])
+		}
+		h["rec"], h["from"] = out.Hash, out.From
+		tx3 := out.AsTransaction()
+		if tx3 == nil {
+			return fmt.Errorf("AsTransaction returned nil")
+		}
+		h["txHash"] = tx3.Hash().Hex()
+		if from, err := ethtypes.Sender(ethtypes.LatestSignerForChainID(tx3.ChainId()), tx3); err != nil {
+			h["sender"] = "error"
+		} else {
+			h["sender"] = strings.ToLower(from.Hex())
+		}
+		vb := envTry(func() error { return out.ValidateBasic() })
+		h["vb"], h["vbCls"] = vb, envVbClass(vb)
+		// last: GetSender writes the From field
+		h["getSender"] = "error"
+		_ = envTry(func() error {
+			td3, err := evmtypes.UnpackTxData(out.Data)
+			if err != nil {
+				return err
+			}
+			from, err := out.GetSender(td3.GetChainID())
+			if err != nil {
+				return err
+			}
+			h["getSender"] = strings.ToLower(from.Hex())
+			return nil
+		})
+		return nil
+	})
+}
+
 func envelopeRunCase(ec *envCodec, c envCase, scn int) M {
 	seed := *c.Seed
 	r := rand.New(rand.NewSource(seed))
@@ -806,6 +990,8 @@ func envelopeRunCase(ec *envCodec, c envCase, scn int) M {
 		line["env"] = M{"fee": "-", "denom": "-", "gas": "-", "nmsgs": -1, "ext": -1, "sigs": -1, "len": -1}
 		line["vbCls"], line["vb2Cls"], line["wrapCls"] = "-", "-", "-"
 		line["pbHash"], line["jsonHash"], line["rlpHash"], line["rlpMsgHash"] = "-", "-", "-", "-"
+		line["h"] = M{"run": false, "stage": envNotRun, "sent": "-", "denotes": "-", "sentFrom": "-", "rec": "-", "from": "-",
+			"vb": envNotRun, "vbCls": "-", "txHash": "-", "sender": "-", "getSender": "-"}
 	}
 	blankStages()
 
@@ -888,6 +1074,19 @@ func envelopeRunCase(ec *envCodec, c envCase, scn int) M {
 		line["rlpHash"] = m4.AsTransaction().Hash().Hex()
 		return nil
 	})
+
+	// 2d. the HAND-BUILT envelope of the case: the same signed transaction, the fields no signature covers
+	// (recorded hash, From) as a sender chose them, put on the wire with the builder's own setters and read on
+	// the receiving side (TxDecoder, GetMsgs, ValidateBasic, AsTransaction, GetSender)
+	if c.Cls["rec"] == "" {
+		c.Cls["rec"] = "canon" // cases recorded before the envelope dimension existed
+	}
+	if c.Cls["from"] == "" {
+		c.Cls["from"] = "empty"
+	}
+	if c.Cls["rec"] != "canon" || c.Cls["from"] != "empty" {
+		envelopeHandBuilt(ec, line["h"].(M), msg, tx, key, c.Cls["rec"], c.Cls["from"], seed)
+	}
 
 	// 3. envelope: BuildTx with the node's TxConfig builder, encode, decode, unwrap
 	var built sdk.Tx
